@@ -2,7 +2,7 @@
 # Confirm each candidate seeded change in its scratch worktree /tmp/mut/<ID>:
 # demo fails with the change, passes without, the existing suite passes with the change.
 confirm() {
-  id=$1; v=$2; wt=/tmp/mut/$id; d=$wt/out
+  id=$1; v=$2; wt=${MUTROOT:-/tmp/mut}/$id; d=$wt/out
   [ -f $d/$v.diff ] || { echo "$id-$v MISSING"; return; }
   cd $wt && git checkout -q -- . 
   PYTHONPATH=$wt/src timeout 300 /venv/bin/python $d/demo_$v.py >/dev/null 2>&1; clean=$?
